@@ -10,6 +10,13 @@ from fractions import Fraction as Fr
 import esrv
 
 PROPS_V = "Props/C05.v"
+# functions the hand-written model of this property was written against (normalised source stored under harness/corr/guards/;
+# a difference is reported as broken-correspondence: the theorems then no longer speak about the current source)
+SOURCE_GUARDS = [
+    ("esr/fitting/match.py", "main"),
+    ("esr/generation/simplifier.py", "convert_params"),
+]
+
 TRANSLATORS = []
 IMPL = os.path.join(esrv.VERIF, "harness", "corr", "c05_impl.py")
 MARK = "@@C05JSON@@"
